@@ -444,3 +444,32 @@
         kani::cover!(matches!(r, Ok(Some(_))));
     }
 
+
+    // ---- setters/getters for other fragments (no logic)
+    pub(crate) fn set_state_any(p: &mut Parser) -> u8 {
+        let tag: u8 = kani::any();
+        kani::assume(tag <= 3);
+        p.state = match tag {
+            0 => ParseState::FindSync1,
+            1 => ParseState::FindSync2,
+            2 => ParseState::ReadHeader,
+            _ => {
+                let d: u8 = kani::any();
+                kani::assume(d <= 250);
+                ParseState::ReadBody(Header::new(ControlField::from(kani::any()), AnyAddress::from(kani::any()), AnyAddress::from(kani::any())), spec::trailer_len(d as usize))
+            }
+        };
+        tag
+    }
+    pub(crate) fn state_tag_of(p: &Parser) -> u8 { state_tag(&p.state) }
+
+    // @harness ids=C06,C01 tier=quick kind=proof units=link::parser::Parser::reset,link::parser::Parser::new timeout=120 note="reset returns the parser to FindSync1 from any state (a new session never inherits a partial frame)"
+    #[kani::proof]
+    fn vk_c06_parser_reset() {
+        let mut p = Parser::new(any_mode());
+        assert!(state_tag_of(&p) == 0);
+        let tag = set_state_any(&mut p);
+        p.reset();
+        assert!(state_tag_of(&p) == 0);
+        kani::cover!(tag == 3);
+    }
